@@ -142,11 +142,13 @@ pub(crate) mod verif_c14_ns {
   macro_rules! ns_harnesses {
     ($($w:literal $rt:ident $canon:ident $frt:ident;)*) => { $(
       #[kani::proof] #[kani::unwind(11)]
+      #[kani::stub(alloc::fmt::format, stub_format)]
       fn $rt() { ns_roundtrip::<SequenceNumber, $w>(SequenceNumber::new(kani::any()), 8); }
       #[kani::proof] #[kani::unwind(11)]
       #[kani::stub(alloc::fmt::format, stub_format)]
       fn $canon() { ns_canonical::<SequenceNumber, $w>(8); }
       #[kani::proof] #[kani::unwind(11)]
+      #[kani::stub(alloc::fmt::format, stub_format)]
       fn $frt() { ns_roundtrip::<FragmentNumber, $w>(FragmentNumber::new(kani::any()), 4); }
     )* }
   }
@@ -206,9 +208,9 @@ pub(crate) mod verif_c14_ns {
   }
   macro_rules! sub_harnesses {
     ($($w:literal $a:ident $g:ident $n:ident;)*) => { $(
-      #[kani::proof] #[kani::unwind(11)] fn $a() { acknack_rt::<$w>(); }
-      #[kani::proof] #[kani::unwind(11)] fn $g() { gap_rt::<$w>(); }
-      #[kani::proof] #[kani::unwind(11)] fn $n() { nackfrag_rt::<$w>(); }
+      #[kani::proof] #[kani::unwind(11)] #[kani::stub(alloc::fmt::format, stub_format)] fn $a() { acknack_rt::<$w>(); }
+      #[kani::proof] #[kani::unwind(11)] #[kani::stub(alloc::fmt::format, stub_format)] fn $g() { gap_rt::<$w>(); }
+      #[kani::proof] #[kani::unwind(11)] #[kani::stub(alloc::fmt::format, stub_format)] fn $n() { nackfrag_rt::<$w>(); }
     )* }
   }
   sub_harnesses! {
